@@ -280,4 +280,137 @@ theorem fmapsLoop (bs : List FBase) (rest : Text) (fuel : Nat) (hok : ∀ b ∈ 
       rw [fbase_lstrip b hb]
       simp only [mapsLoop, fbase_peek b hb, Bool.false_eq_true, if_false, fbase_parse b hb, ih', List.map_cons]
 
+theorem kw_lstrip (kw lit x : Text) (h : KwOk kw lit) (hl : ∀ c ∈ lit, isLower c = true) (hne : lit ≠ []) :
+    lstrip (kw ++ x) = kw ++ x := by
+  obtain ⟨c, cs, e, hc⟩ := kw_head kw lit h hl hne
+  subst e; exact lstrip_cons_nonspace _ (word_not_space c hc)
+
+theorem kw_peek (kw lit x : Text) (h : KwOk kw lit) (hl : ∀ c ∈ lit, isLower c = true) (hne : lit ≠ []) :
+    peekLit ['}'] (kw ++ x) = false := by
+  obtain ⟨c, cs, e, hc⟩ := kw_head kw lit h hl hne
+  subst e; exact word_peek_close c _ hc
+
+theorem fclosing (gs : List Text) (hgs : GsOk gs) (i : Nat) (name rest : Text) (h : NameOk name) :
+    closing (lstrip (fcloseText gs i name ++ rest)) = .ok (name, lstrip rest) := by
+  have e1 : lstrip (fcloseText gs i name ++ rest) = '}' :: (gap gs i ++ (name ++ ';' :: (gap gs (i + 1) ++ rest))) := by
+    simp only [fcloseText, List.append_assoc, List.cons_append]
+    exact lstrip_cons_nonspace _ (by decide)
+  rw [e1]
+  have s1 : consumeLit ['}'] ('}' :: (gap gs i ++ (name ++ ';' :: (gap gs (i + 1) ++ rest))))
+      = .ok (name ++ ';' :: (gap gs (i + 1) ++ rest)) := by
+    rw [consumeLit_one _ _ _ rfl, lstrip_ws _ _ (gap_ws hgs i), h.lstrip]
+  have s2 := consumeClass_span notSemi name ';' (gap gs (i + 1) ++ rest) (fun c hc => nameRe_notSemi c (h.2 c hc)) h.1 (by decide)
+  rw [lstrip_cons_nonspace _ (by decide)] at s2
+  have s3 : consumeLit [';'] (';' :: (gap gs (i + 1) ++ rest)) = .ok (lstrip rest) := by
+    rw [consumeLit_one _ _ _ rfl, lstrip_ws _ _ (gap_ws hgs (i + 1))]
+  simp only [closing, s1, s2, s3, quoteName_ok h]
+
+theorem fclosing_peek (gs : List Text) (i : Nat) (name rest : Text) :
+    peekLit ['}'] (lstrip (fcloseText gs i name ++ rest)) = true := by
+  have e1 : lstrip (fcloseText gs i name ++ rest) = '}' :: (gap gs i ++ (name ++ ';' :: (gap gs (i + 1) ++ rest))) := by
+    simp only [fcloseText, List.append_assoc, List.cons_append]
+    exact lstrip_cons_nonspace _ (by decide)
+  rw [e1, peekLit_one]; decide
+
+theorem lowers_struct : ∀ c ∈ "structure".toList, isLower c = true := by decide
+theorem lowers_seq : ∀ c ∈ "sequence".toList, isLower c = true := by decide
+theorem lowers_grid : ∀ c ∈ "grid".toList, isLower c = true := by decide
+theorem lowers_array : ∀ c ∈ "array".toList, isLower c = true := by decide
+theorem lowers_maps : ∀ c ∈ "maps".toList, isLower c = true := by decide
+theorem lowers_dataset : ∀ c ∈ "dataset".toList, isLower c = true := by decide
+
+def contLit (isSeq : Bool) : Text := if isSeq then "sequence".toList else "structure".toList
+
+theorem decl_cont_kw (f : Nat) (isSeq : Bool) (kw w0 w1 Y : Text) (hk : KwOk kw (contLit isSeq)) (hw0 : Ws w0) (hw1 : Ws w1) :
+    decl (f + 1) (kw ++ (w0 ++ '{' :: (w1 ++ Y))) =
+      match decls f (lstrip Y) with
+      | .error e => .error e
+      | .ok (kids, b3) => match closing b3 with
+        | .error e => .error e
+        | .ok (nm, b4) => .ok (if isSeq then .seq nm (insertAll kids) else .struct nm (insertAll kids), b4) := by
+  cases isSeq with
+  | false =>
+    have hk' : KwOk kw "structure".toList := hk
+    have hw := kw_takeWhile kw _ w0 '{' (w1 ++ Y) hk' lowers_struct hw0 (by decide)
+    have s1 : consumeLit "structure".toList (kw ++ (w0 ++ '{' :: (w1 ++ Y))) = .ok ('{' :: (w1 ++ Y)) := by
+      rw [consumeLit_kw _ _ _ hk' (by decide), lstrip_gap _ _ _ hw0 (by decide)]
+    have s2 : consumeLit ['{'] ('{' :: (w1 ++ Y)) = .ok (lstrip Y) := by
+      rw [consumeLit_one _ _ _ rfl, lstrip_ws _ _ hw1]
+    simp only [decl, hw, s1, s2]
+    cases decls f (lstrip Y) with
+    | error e => rfl
+    | ok p =>
+      obtain ⟨kids, b3⟩ := p
+      simp only []
+      cases closing b3 with
+      | error e => rfl
+      | ok q => rfl
+  | true =>
+    have hk' : KwOk kw "sequence".toList := hk
+    have hw := kw_takeWhile kw _ w0 '{' (w1 ++ Y) hk' lowers_seq hw0 (by decide)
+    have s1 : consumeLit "sequence".toList (kw ++ (w0 ++ '{' :: (w1 ++ Y))) = .ok ('{' :: (w1 ++ Y)) := by
+      rw [consumeLit_kw _ _ _ hk' (by decide), lstrip_gap _ _ _ hw0 (by decide)]
+    have s2 : consumeLit ['{'] ('{' :: (w1 ++ Y)) = .ok (lstrip Y) := by
+      rw [consumeLit_one _ _ _ rfl, lstrip_ws _ _ hw1]
+    simp only [decl, hw, s1, s2]
+    cases decls f (lstrip Y) with
+    | error e => rfl
+    | ok p =>
+      obtain ⟨kids, b3⟩ := p
+      simp only []
+      cases closing b3 with
+      | error e => rfl
+      | ok q => rfl
+
+structure FGridOk (kw kwA kwM name : Text) (gs : List Text) (arr : FBase) (maps : List FBase) : Prop where
+  hkw : KwOk kw "grid".toList
+  hkwA : KwOk kwA "array".toList
+  hkwM : KwOk kwM "maps".toList
+  hname : NameOk name
+  hgs : GsOk gs
+  harr : FBaseOk arr
+  hmaps : ∀ b ∈ maps, FBaseOk b
+  hnodup : ((arr :: maps).map (·.name)).Nodup
+
+theorem fgrid_parse (kw kwA kwM name : Text) (gs : List Text) (arr : FBase) (maps : List FBase) (rest : Text)
+    (h : FGridOk kw kwA kwM name gs arr maps) :
+    grid (ftextT (.grid kw kwA kwM name gs arr maps) ++ rest)
+      = .ok (.grid name (declBase arr :: maps.map declBase), lstrip rest) := by
+  generalize hR3 : fcloseText gs 6 name ++ rest = R3
+  generalize hM : kwM ++ (gap gs 4 ++ ':' :: (gap gs 5 ++ (fbasesText maps ++ R3))) = M
+  generalize hA : kwA ++ (gap gs 2 ++ ':' :: (gap gs 3 ++ (fbaseText arr ++ M))) = A
+  have e1 : ftextT (.grid kw kwA kwM name gs arr maps) ++ rest = kw ++ (gap gs 0 ++ '{' :: (gap gs 1 ++ A)) := by
+    simp only [ftextT, List.append_assoc, List.cons_append, hR3, hM, hA]
+  rw [e1]
+  have s1 : consumeLit "grid".toList (kw ++ (gap gs 0 ++ '{' :: (gap gs 1 ++ A))) = .ok ('{' :: (gap gs 1 ++ A)) := by
+    rw [consumeLit_kw _ _ _ h.hkw (by decide), lstrip_gap _ _ _ (gap_ws h.hgs 0) (by decide)]
+  have s2 : consumeLit ['{'] ('{' :: (gap gs 1 ++ A)) = .ok (kwA ++ (gap gs 2 ++ ':' :: (gap gs 3 ++ (fbaseText arr ++ M)))) := by
+    rw [consumeLit_one _ _ _ rfl, lstrip_ws _ _ (gap_ws h.hgs 1), ← hA, kw_lstrip _ _ _ h.hkwA lowers_array (by decide)]
+  have s3 : consumeLit "array".toList (kwA ++ (gap gs 2 ++ ':' :: (gap gs 3 ++ (fbaseText arr ++ M))))
+      = .ok (':' :: (gap gs 3 ++ (fbaseText arr ++ M))) := by
+    rw [consumeLit_kw _ _ _ h.hkwA (by decide), lstrip_gap _ _ _ (gap_ws h.hgs 2) (by decide)]
+  have s4 : consumeLit [':'] (':' :: (gap gs 3 ++ (fbaseText arr ++ M))) = .ok (fbaseText arr ++ M) := by
+    rw [consumeLit_one _ _ _ rfl, lstrip_ws _ _ (gap_ws h.hgs 3), fbase_lstrip arr h.harr]
+  have s5 := fbase_parse arr h.harr M
+  have s6 : lstrip M = kwM ++ (gap gs 4 ++ ':' :: (gap gs 5 ++ (fbasesText maps ++ R3))) := by
+    rw [← hM, kw_lstrip _ _ _ h.hkwM lowers_maps (by decide)]
+  have s7 : consumeLit "maps".toList (kwM ++ (gap gs 4 ++ ':' :: (gap gs 5 ++ (fbasesText maps ++ R3))))
+      = .ok (':' :: (gap gs 5 ++ (fbasesText maps ++ R3))) := by
+    rw [consumeLit_kw _ _ _ h.hkwM (by decide), lstrip_gap _ _ _ (gap_ws h.hgs 4) (by decide)]
+  have s8 : consumeLit [':'] (':' :: (gap gs 5 ++ (fbasesText maps ++ R3))) = .ok (lstrip (fbasesText maps ++ R3)) := by
+    rw [consumeLit_one _ _ _ rfl, lstrip_ws _ _ (gap_ws h.hgs 5)]
+  have hlen : maps.length ≤ (kw ++ (gap gs 0 ++ '{' :: (gap gs 1 ++ A))).length := by
+    have := fbasesText_len maps
+    rw [← hA, ← hM]
+    simp only [List.length_append, List.length_cons]; omega
+  have s9 := fmapsLoop maps R3 _ h.hmaps hlen (by rw [← hR3]; exact fclosing_peek gs 6 name rest)
+  have s10 : closing (lstrip R3) = .ok (name, lstrip rest) := by
+    rw [← hR3]; exact fclosing gs h.hgs 6 name rest h.hname
+  have hins : insertAllB (declBase arr :: maps.map declBase) = declBase arr :: maps.map declBase := by
+    apply insertAllB_nodup
+    have e : (declBase arr :: maps.map declBase).map (·.name) = (arr :: maps).map (·.name) := by
+      simp [declBase, Function.comp_def]
+    rw [e]; exact h.hnodup
+  simp only [grid, s1, s2, s3, s4, s5, s6, s7, s8, s9, s10, hins]
+
 end Pydap.Dds
